@@ -39,7 +39,7 @@ CONN_USES = """
     use std::sync::Arc;
 """
 CONN_RULES = ["deasync", "attrs", "log", "match_packet", "select", "const_pat", "let_chain", "closure_wild", "label_block",
-              "statics", "mut_self", "generics", "take_read", "break_value", "as_deref"]
+              "statics", "mut_self", "generics", "take_read", "break_value", "as_deref", "try_desugar"]
 
 
 def read_text(*parts):
